@@ -12,7 +12,7 @@ sys.path.insert(0, HERE)
 class H:
     def __init__(self, name, module, prop, tier="quick", expect="pass", unwind=None, timeout=600,
                  timeout_thorough=3600, cost=30, bounds="", functions=(), allowed_fail=None,
-                 require_refusal=False, mem_gb=10, mem_gb_thorough=16, kani_flags=(), fallback_inputs=()):
+                 require_refusal=False, mem_gb=14, mem_gb_thorough=20, kani_flags=(), fallback_inputs=()):
         self.name, self.module, self.prop, self.tier, self.expect = name, module, prop, tier, expect
         self.unwind, self.timeout, self.timeout_thorough, self.cost = unwind, timeout, timeout_thorough, cost
         self.bounds, self.functions = bounds, list(functions)
